@@ -10,11 +10,18 @@
    the backends' functions themselves is C15's subject and is checked here per run by the
    NumPy oracle of harness/c13.py; what is proved is the wiring: which cells feed which
    node in which order, the result's dimensions and coordinates, and that a batch size
-   changes the graph but neither the values nor the dimensions. *)
+   changes the graph but neither the values nor the dimensions.
+   For the callables the fluent layer itself puts into nodes (take, stack, concat, the named
+   reductions, arithmetic, trivial) Fluent/ActionSem.v gives `ap` a meaning on exact arrays
+   (the reference semantics of Backends/Ops.v); (14)-(16) are about the VALUES under it -- which
+   element expand takes for an internal dimension counted from the front or from the back, and
+   that stack undoes expand -- and the correspondence run compares these values with the
+   evaluation of the real graph.  (17): a call does not depend on other calls of the session. *)
 From Coq Require Import List NArith ZArith String Bool Field QArith Qcanon.
 From EKW Require Import Fluent.XArr Fluent.Action Fluent.Batch Fluent.ActionProofs Fluent.ActionSpecs
-  Fluent.ActionStd Fluent.ActionTransform.
+  Fluent.ActionStd Fluent.ActionTransform Fluent.ActionSem Fluent.ActionSemProofs.
 From EKW Require Fluent.ActionCheck.   (* keeps the correspondence checker's .vo in step with the model *)
+From EKW Require Import Fluent.ActionSemCheck.
 Import ListNotations.
 Close Scope Qc_scope.
 Close Scope Q_scope.
@@ -327,6 +334,68 @@ Theorem C13_batch_round_transcription_partial : forall f kw dim bs newname a k,
       xat r idx = xat (batch_round f kw k bs newname a) idx.
 Proof. exact batch_round_transcription. Qed.
 
+(* (14) VALUES of the nodes expand builds (tensor semantics of Fluent/ActionSem.v).  take(t, i, dim=d):
+   d is a position among the payload's dimensions counted from the front (d >= 0) or from the
+   back (d < 0); the node holds the sub-array at position i (same convention) of THAT dimension,
+   the other dimensions keep their order.  d and d - rank give the same value; a d outside
+   -rank .. rank-1 is an AxisError when the graph runs (expand itself builds the graph). *)
+Theorem C13_take_value : forall t i d a k,
+  BT.norm_index (List.length (BT.shape t)) d = Some a ->
+  BT.norm_index (nth a (BT.shape t) 0%nat) i = Some k ->
+  take_val (BT.Ok t) i d =
+  BT.Ok (BT.T (BT.remove_nth a (BT.shape t)) (BT.take_int_ax (firstn a (BT.shape t)) k (BT.body t))).
+Proof. exact take_val_spec. Qed.
+
+Theorem C13_take_dim_from_back_same_value : forall t i d,
+  (0 <= d < Z.of_nat (List.length (BT.shape t)))%Z ->
+  take_val (BT.Ok t) i (d - Z.of_nat (List.length (BT.shape t))) = take_val (BT.Ok t) i d.
+Proof. exact take_val_from_back. Qed.
+
+Theorem C13_take_dim_out_of_range : forall t i d,
+  BT.norm_index (List.length (BT.shape t)) d = None -> take_val (BT.Ok t) i d = BT.Err "AxisError".
+Proof. exact take_val_bad_dim. Qed.
+
+Theorem C13_expand_values : forall srcs name d n axis a k r,
+  fresh name a -> scal_ok (xscal a) -> norm_axis (List.length (xdims a)) axis = Some k -> (2 <= n)%nat ->
+  a_expand name None (CZ d) (inl n) axis [] a = Ok r ->
+  forall idx, List.length idx = S (List.length (xdims a)) -> (nth k idx 0 < n)%nat ->
+    evT srcs (xat r idx) = take_val (evT srcs (xat a (remove_at k idx))) (Z.of_nat (nth k idx 0%nat)) d.
+Proof. exact expand_values. Qed.
+
+(* (15) taking every position of internal dimension d and stacking the pieces at axis d' rebuilds
+   the array whenever d and d' name the same position, each from the front or from the back *)
+Theorem C13_take_then_stack_is_identity : forall t d d' a,
+  BT.valid t ->
+  BT.norm_index (List.length (BT.shape t)) d = Some a ->
+  BT.norm_index (List.length (BT.shape t)) d' = Some a ->
+  (1 <= nth a (BT.shape t) 0)%nat ->
+  stack_val (map (fun i => take_val (BT.Ok t) (Z.of_nat i) d) (seq 0 (nth a (BT.shape t) 0%nat))) d' = BT.Ok t.
+Proof. exact take_then_stack. Qed.
+
+(* (16) the same through the real operations: a.expand(name, d, n, axis).stack(name, axis=d') has the
+   dimensions of a and, at every coordinate, the VALUE of a's node there *)
+Theorem C13_expand_then_stack_values : forall srcs name d d' n axis a k r1 r2,
+  name <> "" -> fresh name a -> scal_ok (xscal a) ->
+  norm_axis (List.length (xdims a)) axis = Some k -> (2 <= n)%nat ->
+  a_expand name None (CZ d) (inl n) axis [] a = Ok r1 ->
+  a_stack name 0 false d' [] r1 = Ok r2 ->
+  xdims r2 = map reindexed (xdims a) /\ xscal r2 = xscal a /\
+  forall t tt ka, List.length t = List.length (xdims a) ->
+    evT srcs (xat a t) = BT.Ok tt -> BT.valid tt ->
+    BT.norm_index (List.length (BT.shape tt)) d = Some ka ->
+    BT.norm_index (List.length (BT.shape tt)) d' = Some ka ->
+    nth ka (BT.shape tt) 0%nat = n ->
+    evT srcs (xat r2 t) = BT.Ok tt.
+Proof. exact expand_then_stack_values. Qed.
+
+(* (17) a call is a function of its instruction and of the operands it names: whatever else was
+   built before in the same session (other calls of the same method with other arguments, ...)
+   does not change its result.  The session stream of the harness holds the implementation to this. *)
+Theorem C13_call_ignores_other_results : forall env more ins,
+  (forall i, In i (operands ins) -> (i < List.length env)%nat) ->
+  step (env ++ more) ins = step env ins.
+Proof. exact step_ignores_other_results. Qed.
+
 (* ------------------------------------------------------------------ non-vacuity *)
 Definition exA : xarr :=
   a_source [("x", [CZ 10; CZ 11; CZ 12; CZ 13; CZ 14]); ("y", [CS "a"; CS "b"])] 0.
@@ -417,6 +486,48 @@ Proof.
   split; [intros n v []|]. split; [split; reflexivity|]. vm_compute. repeat split; reflexivity.
 Qed.
 
+(* values: [[1,2,3],[4,5,6]]; position 1 of the LAST dimension (dim=-1 or dim=1) is [2,5], of the first [4,5,6] *)
+Definition exT : BT.tensor := ti [2; 3]%nat [1; 2; 3; 4; 5; 6]%Z.
+Definition exT2 : BT.tensor := ti [2; 3]%nat [7; 8; 9; 10; 11; 12]%Z.
+
+Example C13_take_value_nonvacuous :
+  BT.valid exT /\ BT.norm_index 2 (-1) = Some 1%nat /\ BT.norm_index 2 (1 - 2) = BT.norm_index 2 1 /\
+  val_eqb (take_val (BT.Ok exT) 1 (-1)) ([2]%nat, [2; 5]%Z) = true /\
+  val_eqb (take_val (BT.Ok exT) 1 1) ([2]%nat, [2; 5]%Z) = true /\
+  val_eqb (take_val (BT.Ok exT) 1 0) ([3]%nat, [4; 5; 6]%Z) = true /\
+  val_eqb (take_val (BT.Ok exT) (-1) (-2)) ([3]%nat, [4; 5; 6]%Z) = true /\
+  BT.norm_index 2 2 = None /\ BT.norm_index 2 (-3) = None.
+Proof. vm_compute. repeat split; reflexivity. Qed.
+
+Example C13_take_then_stack_nonvacuous :
+  BT.valid exT /\ BT.norm_index (List.length (BT.shape exT)) (-1) = Some 1%nat /\
+  BT.norm_index (List.length (BT.shape exT)) 1 = Some 1%nat /\ (1 <= nth 1 (BT.shape exT) 0)%nat.
+Proof. vm_compute. repeat split; try reflexivity. repeat constructor. Qed.
+
+(* two source nodes holding 2x3 arrays: expand the last internal dimension (named from the back),
+   stack it back (named from the front) *)
+Definition exS : xarr := a_source [("x", [CZ 10; CZ 11])] 0.
+
+Example C13_expand_then_stack_nonvacuous :
+  "e" <> "" /\ fresh "e" exS /\ scal_ok (xscal exS) /\ norm_axis (List.length (xdims exS)) (-1) = Some 1%nat /\
+  match a_expand "e" None (CZ (-1)) (inl 3%nat) (-1) [] exS with
+  | Ok r1 =>
+      val_eqb (evT [exT; exT2] (xat r1 [1; 2]%nat)) ([2]%nat, [9; 12]%Z) = true /\
+      match a_stack "e" 0 false 1 [] r1 with
+      | Ok r2 => val_eqb (evT [exT; exT2] (xat r2 [1%nat])) ([2; 3]%nat, [7; 8; 9; 10; 11; 12]%Z) = true
+      | Err _ => False end
+  | Err _ => False end /\
+  evT [exT; exT2] (xat exS [1%nat]) = BT.Ok exT2 /\ BT.valid exT2.
+Proof.
+  split; [discriminate|]. split; [split; reflexivity|]. split; [intros n v []|].
+  split; [reflexivity|]. split; [vm_compute; repeat split; reflexivity|]. split; reflexivity.
+Qed.
+
+Example C13_call_ignores_other_results_nonvacuous :
+  let env := [exA] in let ins := IStack 0 "x" 0 false 1 [] in
+  (forall i, In i (operands ins) -> (i < List.length env)%nat) /\ is_ok (step env ins) = true.
+Proof. split; [intros i [<-|[]]; cbn; repeat constructor|reflexivity]. Qed.
+
 Print Assumptions C13_reduce_cells.
 Print Assumptions C13_reduce_cells_keep_dim.
 Print Assumptions C13_batching_never_changes_values.
@@ -446,3 +557,10 @@ Print Assumptions C13_expand_single_cells.
 Print Assumptions C13_transform_cells.
 Print Assumptions C13_batch_round_transcription_partial.
 Print Assumptions C13_std_field_nonvacuous.
+Print Assumptions C13_take_value.
+Print Assumptions C13_take_dim_from_back_same_value.
+Print Assumptions C13_take_dim_out_of_range.
+Print Assumptions C13_expand_values.
+Print Assumptions C13_take_then_stack_is_identity.
+Print Assumptions C13_expand_then_stack_values.
+Print Assumptions C13_call_ignores_other_results.
